@@ -105,7 +105,76 @@ def run(ctx):
                 ctx.fail("after %d earlier requests %s is answered %s; a fresh instance answers %s" % (k, ops[k], res[k], f),
                          c[:-1] + ["<%d distinct addresses first> %s" % (k, ops[k])], res[k], f, label="impl-long")
                 break
-    ctx.evaluations = len(cases) + len(longs)
+    n_extra = text_histories(ctx, rng) + process_histories(ctx, rng)
+    ctx.evaluations = len(cases) + len(longs) + n_extra
     ctx.distinct_nontrivial = nontriv
     ctx.search_stats = {"histories": len(cases), "requests": sum(len(ipgen.ops_of(c)) for c in cases), "long_histories": [len(ipgen.ops_of(c)) for c in longs]}
     ctx.samples = [{"case": cases[0], "impl": i[0]}, {"case": cases[-1], "impl": i[-1]}]
+
+
+def text_histories(ctx, rng):
+    """one anonymizer object, requests at TEXT level (anonymize_ip_addr) in both directions, the same text asked in both directions,
+    undo of earlier answers, repeats; every answer must equal that of a fresh object in a fresh process asked only that request"""
+    import ipaddress
+    import vlib
+    from . import linegen
+    n = 0
+    for fam, B in (("4", 8), ("4", 0), ("6", 8)):
+        pool = [l.rstrip("\r\n") for l in linegen.ip_lines(rng, 6, families=fam, near=False, masks=(fam == "4"))]
+        hdr = ["iphist", fam, str(B), rng.choice(["s", "T5", ""]), "D", "-"]
+        first = vlib.run_impl([hdr + ["a" + l for l in pool]])[0].split("\x03")
+        imgs = [x for x in first if not x.startswith("RAISED")]
+        steps = []
+        for l in pool:
+            steps += ["a" + l, "u" + l]                 # the same text in both directions
+        steps += ["u" + x for x in imgs] + ["a" + x for x in imgs[:3]]
+        rng.shuffle(steps)
+        steps += [rng.choice(steps) for _ in range(6)]
+        got = vlib.run_impl([hdr + steps])[0].split("\x03")
+        distinct = sorted(set(steps))
+        fresh = dict(zip(distinct, vlib.run_impl_fresh([hdr + [st] for st in distinct])))
+        n += len(steps)
+        if len(got) != len(steps):
+            ctx.fail("text-level history did not answer every request", hdr + steps, got[:3], label="impl-text-history")
+            continue
+        for k, (st, g) in enumerate(zip(steps, got)):
+            if g != fresh[st]:
+                ctx.fail("text-level request %d (%s %r) answered %r inside the history; a fresh anonymizer answers %r" % (
+                    k, "undo" if st[0] == "u" else "anonymize", st[1:], g, fresh[st]), hdr + steps[: k + 1], g, fresh[st], label="impl-text-history")
+                break
+    return n
+
+
+def process_histories(ctx, rng):
+    """several runs one after the other in ONE interpreter process (same salt with other preservation options, other salts on the same
+    text, other address family), earlier objects kept alive or garbage collected: each run must equal the same run in a process of its own"""
+    import json
+    import vlib
+    from . import textgen
+    lines = ["interface Gi0/1\n", " ip address 10.1.2.3 255.255.255.0\n", " neighbor 192.168.7.9 remote-as 65001\n", "ntp server 172.16.5.4\n",
+             "ip route 8.8.4.0 255.255.255.0 203.0.113.9\n", "ipv6 address 2001:db8:17::5/64\n", "logging host 11.22.33.44\n", "permit ip host 150.3.2.1 any\n"]
+    runs = [textgen.pipe(lines, flags="a", salt="s"),
+            textgen.pipe(lines, flags="a", salt="s", nets="P"),
+            textgen.pipe(lines, flags="a", salt="s", pfx="%d/8" % (11 << 24)),
+            textgen.pipe(lines, flags="a", salt="other"),
+            textgen.pipe(lines, flags="a", salt="s", b4=0, b6=0),
+            textgen.pipe(lines[5:6] * 2, flags="a", salt="zz"),
+            textgen.pipe(lines, flags="a", salt="zz"),
+            textgen.pipe(lines, flags="au", salt="s"),
+            textgen.pipe(lines, flags="a", salt="s", nets="%d/16" % ((150 << 24) + (3 << 16)))]
+    fresh = vlib.run_impl_fresh(runs)
+    n = 0
+    for mode in ("keep", "drop"):
+        for order in range(3):
+            idx = list(range(len(runs)))
+            if order:
+                rng.shuffle(idx)
+            got = vlib.run_impl([["seq", mode, json.dumps([runs[k] for k in idx])]])[0].split("\x07")
+            n += len(idx)
+            for pos, (k, g) in enumerate(zip(idx, got)):
+                if g != fresh[k]:
+                    ctx.fail("run %d of a sequence of runs in one process (earlier objects %s) differs from the same run in a process of its own" % (
+                        pos, "kept alive" if mode == "keep" else "garbage collected"),
+                        {"mode": mode, "runs": [runs[j][:11] for j in idx[: pos + 1]], "lines": lines}, g[:400], fresh[k][:400], label="impl-process-history")
+                    break
+    return n
